@@ -136,3 +136,49 @@ CHECKS['C02'] = dict(
     level_note='Trusted base and bounds as C01. Commands rewrite all their outputs except restat-style commands, which leave identical outputs untouched (the property\'s assumption). No scenario contains an input-less phony statement without a file (the documented always-dirty case).',
     assumptions=_PIPE_ASSUME + ['every non-restat command rewrites all of its declared outputs'],
     jobs=_hist_jobs('CHECK_C02', 2, 3, range(10), reach=('built', 'converged-checked')))
+
+def _mode_jobs(mode, scenarios, extra=(), suffix='', reach=(), quick_defs=(), thorough_defs=(), bounds='', limits=None, thorough_only=False):
+    jobs = []
+    for i in scenarios:
+        j = dict(name=SCENARIOS[i] + suffix, harness='pipeline.cc', units=PIPELINE, defines=['SCENARIO=%d' % i, mode] + list(extra), reach=list(reach),
+                 limits=limits or dict(max_steps=30000000, time=1500), quick=dict(defines=list(quick_defs), bounds='scenario %s: %s' % (SCENARIOS[i], bounds)),
+                 thorough=dict(defines=list(thorough_defs) or list(quick_defs), bounds='scenario %s: %s' % (SCENARIOS[i], bounds), limits=dict(time=3400, max_paths=3000000)))
+        if thorough_only: j['thorough_only'] = True
+        jobs.append(j)
+    return jobs
+CHECKS['C03'] = dict(
+    title='only commands affected by a change are re-run',
+    level_text='Same symbolic histories as C01; before every invocation the harness computes, from the contents each command saw when it last succeeded, the set of commands a make-semantics reference must run (missing output, changed command line except for generator rules, missing plain depfile, a read file that differs from what was last seen, or an input actually rewritten in this run; restat-style commands that reproduce their output rewrite nothing; order-only inputs never count), and asserts that the set handed to CommandRunner::StartCommand is exactly that set.',
+    level_note='Trusted base as C01 plus the 45-line minimality reference (MinRef in harness/kit.h). Bounds as C01 (history length 2 quick / 3 thorough). Histories with failing commands are excluded from this check.',
+    assumptions=_PIPE_ASSUME + ['every user edit changes the content of the edited file (a pure touch is not modelled)'],
+    jobs=_hist_jobs('CHECK_C03', 2, 3, [0, 2, 3, 5, 6, 8, 9], reach=('built', 'minimality-checked')) + [dict(j, thorough_only=True) for j in _hist_jobs('CHECK_C03', 2, 3, [1, 4, 7], reach=('built', 'minimality-checked'))])
+CHECKS['C04'] = dict(
+    title='a command starts only after everything it needs is up to date and in place',
+    level_text='Symbolic histories and single invocations with symbolic -j (1..3), pool depths and completion order over the whole real pipeline; a monitor inside CommandRunner::StartCommand asserts for every file the command reads (declared, discovered through depfile/deps log, or dyndep) that has a producer: it exists and already has the content a from-scratch build gives it; the directories of outputs and depfile exist; the response file holds the evaluated rspfile_content. A validation target is reached both before and after its requester (witness).',
+    level_note='Trusted base as C01. Because the engine follows every feasible completion order, the schedules of each explored shape are covered exhaustively. Bounds: catalogue shapes, -j <= 3, history length 2.',
+    assumptions=_PIPE_ASSUME,
+    jobs=_hist_jobs('CHECK_C04', 2, 2, [0, 2, 5, 6, 7, 8], reach=('built', 'incremental-build')) + _mode_jobs('MODE_SCHED', [2, 9, 7], suffix='_sched', reach=('built', 'parallel'), bounds='one invocation from the empty tree, -j in {1,2,3}, every completion order'))
+CHECKS['C05'] = dict(
+    title='failures are contained, reported, and never recorded as success',
+    level_text='One symbolic invocation over the whole real pipeline in which any subset of commands fails with a symbolic exit code (1..3), with or without having touched its outputs, under -k in {1,2,0} and -j in {1..3} and every completion order; a declared source may be missing. The harness asserts containment (no dependent of a failed command starts), the exit status and stop message, that successful commands are recorded in .ninja_log (re-read from the in-memory file system by the real loader) and failed ones are not, that the failure budget is honoured in both directions, and that the next build retries every failed command.',
+    level_note='Trusted base as C01. ParseExitStatus in subprocess-posix.cc is outside the encoding (SubprocessSet is a cut point); exit code 130 is covered by C07. Bounds: catalogue shapes, one invocation from the empty tree (plus built-then-perturbed states in the thorough tier).',
+    assumptions=_PIPE_ASSUME,
+    jobs=_mode_jobs('MODE_FAIL', [0, 2, 5, 9], reach=('failed', 'retried', 'all-succeeded', 'missing-source'), bounds='one invocation from the empty tree; any subset of commands fails with exit code 1..3, touched or not; -k in {1,2,0}; -j in {1,2,3}; any one source missing') +
+         _mode_jobs('MODE_FAIL', [0, 1, 3], extra=['FROM_BUILT'], suffix='_built', reach=('failed', 'retried'), bounds='the same from a fully built tree after symbolic edits/deletions', thorough_only=True))
+CHECKS['C06'] = dict(
+    title='concurrency limits hold, no slot idles, and the build always finishes',
+    level_text='One symbolic invocation over the whole real pipeline with symbolic -j, pool assignment per the scenario (depth-1 pool, console pool), an optional jobserver token pool of symbolic size with spawn failures, failing commands and every completion order. Monitors in the command runner assert: running <= -j (or <= tokens held), per-pool running <= depth, each command at most once, no wait while Plan::ready_ is non-empty and a slot is free and the failure budget lasts, tokens acquired == tokens released after ~Builder on every return path, never "stuck"; the per-path step budget bounds termination.',
+    level_note='Trusted base as C01 plus the 15-line token pool stub (the POSIX FIFO, ppoll and getloadavg are outside the encoding). RealCommandRunner::CanRunMore is mirrored by the harness runner (with a jobserver the capacity is unlimited and Plan::FindWork token acquisition limits the jobs).',
+    assumptions=_PIPE_ASSUME + ['load-average limiting (-l) is not modelled'],
+    jobs=_mode_jobs('MODE_SCHED', [9, 2, 5], reach=('built',), bounds='one invocation from the empty tree, -j in {1,2,3}, every completion order') +
+         _mode_jobs('MODE_SCHED', [9, 0], extra=['WITH_FAILURES'], suffix='_fail', reach=('built',), bounds='the same with any subset of commands failing, -k in {1,2}') +
+         _mode_jobs('MODE_SCHED', [9, 2], extra=['WITH_JOBSERVER'], suffix='_tokens', reach=('tokens-success', 'tokens-failure'), bounds='jobserver pool of 0..2 explicit tokens plus the implicit one, any command start may fail') +
+         _mode_jobs('MODE_SCHED', [9, 7], extra=['FROM_BUILT'], suffix='_built', reach=('built',), bounds='from a fully built tree after symbolic edits/deletions', thorough_only=True))
+CHECKS['C07'] = dict(
+    title='interrupting or killing ninja never poisons the next build',
+    level_text='A build over the whole real pipeline is cut off right after a symbolic persistence event (every DiskInterface mutation and every stdio/unistd mutation of .ninja_log/.ninja_deps on the in-memory file system, i.e. every point between two durable effects), commands running at that instant either complete atomically or die with ninja; or it is interrupted at a symbolic wait with running commands having touched their outputs or not. The recovery invocation must load both logs, succeed, leave the tree equal to a from-scratch build and be followed by a no-op build; an interrupt must exit 130, remove touched outputs and the lock file.',
+    level_note='Trusted base as C01. Completeness argument: only persistent effects survive a process death, so dying anywhere between two persistence events is indistinguishable from dying right after the first. Real signals, SubprocessSet::Clear and children surviving SIGKILL are operating-system behaviour outside the encoding.',
+    assumptions=_PIPE_ASSUME + ['commands replace their outputs atomically when ninja is killed'],
+    jobs=_mode_jobs('MODE_CRASH', [1, 3, 5], reach=('died', 'survived', 'recovered'), quick_defs=['VERIF_MAX_EVENTS=40'], bounds='build from the empty tree killed after persistence event 0..40, -j in {1,2}, every completion order; recovery build; no-op build') +
+         _mode_jobs('MODE_CRASH', [1, 3], extra=['FROM_BUILT'], suffix='_built', reach=('died', 'recovered'), quick_defs=['VERIF_MAX_EVENTS=30'], bounds='the same from a fully built tree after symbolic edits/deletions', thorough_only=True) +
+         _mode_jobs('MODE_CRASH', [0, 3, 5], extra=['INTERRUPT'], suffix='_interrupt', reach=('interrupted', 'recovered'), bounds='interrupt at any wait, running commands touched their outputs or not; recovery build'))
